@@ -40,19 +40,21 @@ def IntegerConfig.parse (logAlpha : Nat) (s : Bits) : R IntegerConfig :=
             else .ok (⟨se, msb, lsb⟩, s3)
     else .ok (⟨se, 0, 0⟩, s1)
 
-/-- `read_uint_prefilled(bitstream, config, token)`: never fails. `n` is masked with 31, the
-result is truncated to `u32`, and when fewer than `n` bits are left the peek is zero padded and
-the failed `consume_bits` is ignored (`.ok()`), i.e. the stream does not advance. -/
-def readUint (c : IntegerConfig) (token : Nat) (s : Bits) : Nat × Bits :=
-  if token < c.split then (token, s)
+/-- `read_uint_prefilled(bitstream, config, token)`. `n` is masked with 31 and the result is
+truncated to `u32`; when fewer than `n` bits are left, `consume_bits` fails and the error is
+returned (before /repo commit ca1c9ea the failure was ignored and the zero padded peek used). -/
+def readUint (c : IntegerConfig) (token : Nat) (s : Bits) : R Nat :=
+  if token < c.split then .ok (token, s)
   else
     let ml := c.msbInToken + c.lsbInToken
     let n := (c.splitExponent - ml + ((token - c.split) >>> ml)) % 32
     let rest := peekPad n s
-    let s' := match dropChk n s with | some r => r | none => s
-    let low := token % 2 ^ c.lsbInToken
-    let tok := (token >>> c.lsbInToken) % 2 ^ c.msbInToken + 2 ^ c.msbInToken
-    (((tok * 2 ^ n + rest) * 2 ^ c.lsbInToken + low) % 2 ^ 32, s')
+    match dropChk n s with
+    | none => .error .eof
+    | some s' =>
+      let low := token % 2 ^ c.lsbInToken
+      let tok := (token >>> c.lsbInToken) % 2 ^ c.msbInToken + 2 ^ c.msbInToken
+      .ok (((tok * 2 ^ n + rest) * 2 ^ c.lsbInToken + low) % 2 ^ 32, s')
 
 /-- Encoder side: token, number of extra bits and the extra bits of `v` under `c`. -/
 def splitUint (c : IntegerConfig) (v : Nat) : Nat × Nat × Nat :=
